@@ -1,6 +1,7 @@
 import SekaiProofs.Lemmas.Ante
 import Sekai.Gen.App
 import Sekai.Model.App
+import Sekai.Gen.Ambient
 /-! # C14 — Frozen tokens cannot move and a weak network accepts only allowed messages
 
 Theorems about `Sekai.Ante` (`TokensWhiteBlack.IsFrozen`, `ValidateFeeRangeDecorator`'s freeze test on fee
@@ -365,6 +366,13 @@ twice) one removal leaves the token on the list -/
 theorem remove_with_duplicates_counterexample : removeTokens ["a", "a"] ["a"] = ["a"] := by decide
 
 /-! ### Application wiring (table `Gen.App`) -/
+
+/-- the filters read the freeze lists, the switches and the allowed-message list from the store at the moment a
+transaction is checked: nothing outside the store (a cache filled by an earlier, possibly discarded write) can answer
+for them. `Gen.Ambient.processState`: see `C01.no_state_outside_the_store`. -/
+theorem filters_read_the_store_only : Sekai.Gen.Ambient.processState =
+    [("x/upgrade/keeper/keeper.go", "Keeper", "upgradeHandlers", "map[string]types.UpgradeHandler")] := by decide +kernel
+
 
 /-- both filters of this property are in the ante chain exactly once, after the fee-range check (which rejects frozen
 fee tokens) and before signature verification (so they see every transaction that can be delivered) -/
